@@ -99,6 +99,12 @@ def cli(ctx: click.Context, verbose: bool, config: str | None, project_root: str
     # than the interpreter's default limit of 1000 frames allows, and a rule that runs out of
     # frames is abandoned for that file. (Worker processes of --parallel are forked from here.)
     sys.setrecursionlimit(max(sys.getrecursionlimit(), DEEP_SOURCE_RECURSION_LIMIT))
+    # Likewise the digits of an integer literal are source text to be reported, not untrusted
+    # input to be bounded: with CPython's default cap (4300 digits) ast.parse rejects such a file
+    # and str()/ast.unparse of the value raise ValueError, which ends the run as a
+    # "configuration error".
+    if hasattr(sys, "set_int_max_str_digits"):
+        sys.set_int_max_str_digits(0)
 
     # Setup logging
     setup_logging(verbose)
